@@ -315,6 +315,58 @@ pub fn long_cases(ctx: &SpecCtx, comp: &mut Compiled, r: &mut TestRunner, n: usi
     out
 }
 
+/// Inputs on which one attempt reads more than 65 536 characters: a sampled lexeme, one character
+/// repeated 66 000-70 000 times, a terminator. Kept only if the reference needs at most
+/// `max_steps` symbol reads (the repeated character must not start a quadratic cascade).
+pub fn deep_cases(ctx: &SpecCtx, comp: &mut Compiled, r: &mut TestRunner, n: usize, max_steps: u64) -> Vec<Case> {
+    let res = all_rule_res(ctx);
+    if res.is_empty() || ctx.reps.is_empty() {
+        return vec![];
+    }
+    let tapes = gen::tape_strategy(16);
+    let mut out = vec![];
+    let mut tried = 0;
+    for k in 0..ctx.reps.len().min(6) {
+        if out.len() >= n {
+            break;
+        }
+        let c = ctx.reps[k];
+        if c == '\n' {
+            continue;
+        }
+        for end in [ctx.foreign.first().copied(), ctx.reps.get(k + 1).copied(), None] {
+            tried += 1;
+            if tried > 12 || out.len() >= n {
+                break;
+            }
+            let t = sample(&tapes, r);
+            let head = gen::guided_input(&res, &[], &t, 1);
+            let build = |len: usize| {
+                let mut s = head.clone();
+                s.extend(std::iter::repeat(c).take(len));
+                if let Some(e) = end {
+                    s.push(e);
+                }
+                gen::simple_case(s, vec![])
+            };
+            // probe with 2 000 repetitions first: a quadratic cascade shows there already
+            let probe = build(2_000);
+            let before = comp.steps;
+            let _ = oracle::model::run_model(comp, &probe);
+            if comp.steps - before > 30_000 {
+                continue;
+            }
+            let case = build(66_000 + (t.len() * 311) % 4_000);
+            let before = comp.steps;
+            let _ = oracle::model::run_model(comp, &case);
+            if comp.steps - before <= max_steps {
+                out.push(case);
+            }
+        }
+    }
+    out
+}
+
 fn has_ctx(spec: &Spec) -> bool {
     spec.rules().iter().any(|r| r.ctx.is_some())
 }
@@ -399,6 +451,39 @@ impl Prop for C01 {
             rules.push((Re::Char(' '), None));
             out.push(("many-rules", crate::props2::simple_spec(rules, i % 2 == 0, vec![])));
         }
+        // two alternatives of one rule that end in the same tail, each tail state reached from
+        // two places, and another rule that accepts on the way to only one of them: states that
+        // look alike but differ in whether a shorter match is pending
+        let letter = proptest::sample::select(vec!['a', 'b', 'c', 'd', 'e', 'f']);
+        for i in 0..tier.pick(60, 300) {
+            let mut l = |r: &mut TestRunner| Re::Char(sample(&letter, r));
+            let h1 = oracle::re::alt(l(r), l(r));
+            let mid = l(r);
+            let h2 = oracle::re::alt(oracle::re::cat(l(r), l(r)), oracle::re::cat(l(r), l(r)));
+            let tail = if i % 3 == 0 { oracle::re::cat(l(r), l(r)) } else { l(r) };
+            let a1 = oracle::re::cat(oracle::re::cat(h1.clone(), mid), tail.clone());
+            let a2 = oracle::re::cat(h2.clone(), tail);
+            let big = if i % 2 == 0 { oracle::re::alt(a1, a2) } else { oracle::re::alt(a2, a1) };
+            // the short rule: the first character of one of the heads
+            let short = match (&h1, &h2) {
+                (Re::Alt(x, _), Re::Alt(y, _)) => {
+                    if i % 4 < 2 {
+                        (**x).clone()
+                    } else {
+                        match &**y {
+                            Re::Cat(c, _) => (**c).clone(),
+                            other => other.clone(),
+                        }
+                    }
+                }
+                _ => Re::Char('a'),
+            };
+            let mut rules = if i % 8 < 4 { vec![(short, None), (big, None)] } else { vec![(big, None), (short, None)] };
+            if i % 5 == 0 {
+                rules.push((Re::Char(' '), None));
+            }
+            out.push(("join-tails", crate::props2::simple_spec(rules, i % 2 == 1, vec![])));
+        }
         // many search tables in one lexer: 12-24 rules `'<letter>' C_j+` with pairwise different
         // table-sized classes (16-24 pieces each), so that a dozen generated lookup tables and
         // helpers coexist
@@ -444,6 +529,10 @@ impl Prop for C01 {
             },
         );
         cs.extend(long_cases(ctx, c, r, 2, 400, 400_000));
+        if ctx.idx % 4 == 0 {
+            // a single attempt that reads more than 65 536 characters and is rewound
+            cs.extend(deep_cases(ctx, c, r, 2, 600_000));
+        }
         cs
     }
     fn judge(&self, _ctx: &SpecCtx, _v: &[Case], models: &[ModelOut], gots: &[Outcome]) -> Verdict {
@@ -504,15 +593,19 @@ fn set_discipline(ctx: &SpecCtx, case: &Case, run: &proto::Run) -> Result<(), St
         while li < run.log.len() && run.log[li].item_idx as usize <= i {
             let e = &run.log[li];
             li += 1;
+            if e.rule & proto::POST_RESET != 0 {
+                continue;
+            }
             check(e.rule, active, &format!("action {}", li - 1))?;
             let sw = match kind_of.get(&e.rule) {
                 Some(Kind::Sw(k)) | Some(Kind::SwRet(k)) => Some(*k),
                 Some(k @ Kind::Script) | Some(k @ Kind::FScript) => {
                     let d = case.script.get(script_pos).copied().unwrap_or(Dec::Ret);
                     script_pos += 1;
-                    let _ = k;
                     match d {
                         Dec::Switch(j) | Dec::SwitchRet(j) | Dec::ResetSwitch(j) if named => Some(j),
+                        // switch_and_return(set, Err(..)) in a `=?` rule
+                        Dec::Err(x) if named && x >> 24 != 0 && matches!(k, Kind::FScript) => Some((x >> 24) - 1),
                         _ => None,
                     }
                 }
@@ -579,7 +672,7 @@ impl Prop for C03 {
             }
             out.push((
                 "many-sets",
-                Spec { extra_attrs: vec![], vis: "pub".into(), items, paren: oracle::spec::ParenStyle::Full },
+                Spec { extra_attrs: vec![], vis: "pub".into(), items, paren: oracle::spec::ParenStyle::Full, stateless: false },
             ));
         }
         out
@@ -648,6 +741,10 @@ impl Prop for C04 {
         if sel % 2 == 0 {
             // the same lexeme under different contexts at different priorities
             gen::duplicate_rules(&mut spec, t.get(1..).unwrap_or(&[]));
+        }
+        if sel % 5 == 1 {
+            // `X` and `X | $` as contexts of two rules of one lexer
+            gen::ctx_eoi_twin(&mut spec, t.get(1..).unwrap_or(&[]));
         }
         if sel % 3 == 0 {
             // contexts (and rules) written with top-level and rule-set-local variables; the same
@@ -778,6 +875,14 @@ impl Prop for C05 {
     }
     fn profiles(&self, tier: Tier) -> Vec<(Profile, usize)> {
         vec![(p_eoi(), tier.pick(300, 3500)), (p_sink(), tier.pick(60, 800))]
+    }
+    fn adjust_spec(&self, mut spec: Spec, r: &mut TestRunner) -> Spec {
+        // a third of the definitions name their `$`-bearing tails with a top-level variable
+        let t = sample(&gen::tape_strategy(12), r);
+        if t.first().map(|x| x % 3 == 0).unwrap_or(false) {
+            gen::eoi_via_var(&mut spec, t.get(1..).unwrap_or(&[]));
+        }
+        spec
     }
     fn cases(&self, ctx: &SpecCtx, _c: &mut Compiled, r: &mut TestRunner, tier: Tier) -> Vec<Case> {
         // every prefix of the guided inputs: the input ends at every possible point
@@ -931,7 +1036,14 @@ impl Prop for C06 {
     }
     fn custom_specs(&self, _tier: Tier, _r: &mut TestRunner) -> Vec<(&'static str, Spec)> {
         // `_` alone / `_+` with a newline rule: driven with every scalar value (see cases)
+        let not_sep = oracle::re::diff(Re::Any, Re::Set(vec![oracle::re::SetItem::C(' '), oracle::re::SetItem::C('\n')]));
+        let mut logged = crate::props2::simple_spec(vec![(plus(not_sep.clone()), None), (Re::Char(' '), None), (Re::Char('\n'), None)], true, vec![]);
+        for rule in logged.rules_mut() {
+            rule.kind = Kind::Ret;
+        }
         vec![
+            ("clusters", crate::props2::simple_spec(vec![(plus(not_sep), None), (Re::Char(' '), None), (Re::Char('\n'), None)], false, vec![])),
+            ("clusters", logged),
             ("all-scalars", crate::props2::simple_spec(vec![(Re::Any, None)], false, vec![])),
             (
                 "all-scalars",
@@ -944,6 +1056,27 @@ impl Prop for C06 {
         ]
     }
     fn cases(&self, ctx: &SpecCtx, _c: &mut Compiled, r: &mut TestRunner, tier: Tier) -> Vec<Case> {
+        if ctx.profile == "clusters" {
+            // character sequences whose display width as a STRING differs from the sum of the
+            // widths of their characters (ligatures, emoji modifiers and ZWJ sequences, variation
+            // selectors, flags, combining marks) inside one lexeme and across lexemes
+            let pieces = vec![
+                "\u{644}\u{627}", "\u{1F44D}\u{1F3FD}", "\u{263A}\u{FE0F}", "#\u{FE0F}\u{20E3}", "\u{1F468}\u{200D}\u{1F469}\u{200D}\u{1F467}",
+                "\u{A4F8}\u{A4F9}", "e\u{301}", "\u{1F1E9}\u{1F1EA}", "ab", "\u{4EAC}", "\t", "\u{17D8}", "\u{AD}", "\u{1160}", "x",
+            ];
+            let seps = vec!["", "", " ", "\n"];
+            let strat = proptest::collection::vec((proptest::sample::select(pieces), proptest::sample::select(seps)), 1..14);
+            let mut cs = vec![];
+            for _ in 0..tier.pick(400, 2000) {
+                let s: String = sample(&strat, r).into_iter().map(|(a, b)| format!("{}{}", a, b)).collect();
+                cs.push(gen::simple_case(s, vec![]));
+            }
+            let ctors = gen::ctor_strategy();
+            for c in cs.iter_mut().step_by(3) {
+                c.ctor = sample(&ctors, r);
+            }
+            return cs;
+        }
         if ctx.profile == "all-scalars" {
             // every scalar value once (control characters are replaced below), a newline every
             // 997 characters, in chunks of 65 536 characters
@@ -1182,6 +1315,9 @@ impl Prop for C09 {
         // context has to scan ahead at every accepting position; the long inputs are sized so
         // that even those worst cases stay far below the watchdog (which must only fire for
         // genuine non-termination).
+        if ctx.idx % 3 == 0 {
+            cs.extend(deep_cases(ctx, _c, r, 1, 600_000));
+        }
         let with_ctx = ctx.flat.sets.iter().any(|s| s.rules.iter().any(|r| r.ctx.is_some()));
         let (long, medium) = if with_ctx { (300, 150) } else { (3_000, 1_200) };
         let n_long = tier.pick(4, 12);
@@ -1210,8 +1346,9 @@ impl Prop for C09 {
         if t.a.items.len() > n + 1 {
             return Verdict::Bad(format!("{} items for {} characters (bound is n+1)", t.a.items.len(), n));
         }
-        if t.a.log.len() > n + 1 {
-            return Verdict::Bad(format!("{} action invocations for {} characters (bound is n+1)", t.a.log.len(), n));
+        let n_actions = t.a.log.iter().filter(|e| e.rule & proto::POST_RESET == 0).count();
+        if n_actions > n + 1 {
+            return Verdict::Bad(format!("{} action invocations for {} characters (bound is n+1)", n_actions, n));
         }
         // progress (reference-free): every item accounts for at least one character or for the
         // single end-of-input event — token ends strictly increase and consecutive errors are
